@@ -108,6 +108,7 @@ def run(tier, seed, replay=None):
     r = rng(seed, "C10")
     w = uw.UdpWorld(driver, "c10")
     n_eval, dist, shapes = 0, collections.Counter(), set()
+    all_extra = []
     try:
         jobs = []
         n = 0
@@ -185,6 +186,34 @@ def run(tier, seed, replay=None):
         if empties != 1 or not empty_back:
             rep.fail("C10: an empty datagram through the reverse UDP listener: the origin received %d empty datagram(s), reply came back: %s" % (empties, empty_back),
                      {"kind": "failing-input", "scenario": "empty datagram", "empties_at_origin": empties})
+        # empty payloads through SOCKS5 UDP, for every address form of the destination, each followed by a tagged datagram
+        # on the same association
+        for pth in ("direct", "c_http"):
+            for host in (LOOP, "localhost"):
+                n_eval += 1
+                what = "SOCKS5 UDP via %s, destination %s, empty payload then a follow-up" % (pth, host)
+                try:
+                    c = uw.SocksUdpClient(w.socks[pth])
+                    before = len([1 for t, d, a in w.origin.rx if d == b""])
+                    c.send(host, w.origin.port, b"warm-" + pth.encode() + host.encode())
+                    c.recv(timeout=3.0)
+                    c.send(host, w.origin.port, b"")
+                    r0 = c.recv(timeout=3.0)
+                    follow = b"after-empty-" + pth.encode() + host.encode()
+                    c.send(host, w.origin.port, follow)
+                    r1 = c.recv(timeout=3.0)
+                    c.close()
+                    time.sleep(0.3)
+                    empties = len([1 for t, d, a in w.origin.rx if d == b""]) - before
+                    got_follow = any(d == follow for t, d, a in w.origin.rx)
+                    if empties != 1 or r0 is None or r0[1] != b"" or not got_follow or r1 is None or r1[1] != follow:
+                        rep.fail("C10: %s: empty datagram at the origin %d time(s), its reply %s, the follow-up %s" % (
+                            what, empties, "came back" if r0 is not None and r0[1] == b"" else "did not come back", "was delivered" if got_follow else "was lost"),
+                            {"kind": "failing-input", "scenario": what})
+                    all_extra.append(b"warm-" + pth.encode() + host.encode())
+                    all_extra.append(follow)
+                except OSError as e:
+                    rep.fail("C10: %s: %s" % (what, e), {"kind": "failing-input", "scenario": what})
         alive = w.alive()
         rx = list(w.origin.rx)
         try:
@@ -224,7 +253,7 @@ def run(tier, seed, replay=None):
                 break
     # nothing at the origin that nobody sent (a receive error must not materialise as a datagram)
     for d, c in at_origin.items():
-        if d not in all_sent and d not in (b"warm", b""):
+        if d not in all_sent and d not in (b"warm", b"") and d not in all_extra:
             rep.fail("C10: the origin received a datagram no client sent: %r (%d bytes, %d times)" % (d[:40], len(d), c), {"kind": "failing-input", "scenario": "stray datagram at the origin"})
     rep.coverage.update({
         "evaluations": n_eval, "distinct_nontrivial": len(shapes),
